@@ -43,6 +43,11 @@ CHECKS.update({
             "Every valid table of the bounded space (<= 3 individuals x <= 3 visits x 2 features, all NaN patterns, every row permutation, four identifier types, visit / event / joint / covariate layouts, column and index forms) is ingested by the real readers and compared with a dict-based reference (order, sorting, alignment, mask, counts, round trip through to_pandas, caller's table untouched); every malformation of the property's families at every row position must raise LeaspyDataInputError.",
             "Tables beyond the stated sizes are not covered; rejection is demanded only for the malformation families the property lists."),
 })
+CHECKS.update({
+    "C16": ("exploration", "exhaustive enumeration of small containers (identifiers x namings x shapes x value types x values) and breadth-first walk of every conversion chain between the five forms to a fixpoint, against a plain-Python reference",
+            "Every container of the bounded space is converted along every chain of dict / table / tensors / CSV / JSON conversions (breadth-first with deduplication until no new container content appears) and every intermediate form and final container is compared with the reference (identifiers as strings in order, names, shapes, values exactly or to single precision once a tensor is on the path); every malformed addition must be refused and leave the container unchanged.",
+            "Alphabets of identifiers / names / shapes / values are small; empty containers, tuples and names ending in _<digits> are left out."),
+})
 NOT_APPLICABLE = {}
 
 def main():
